@@ -1,6 +1,6 @@
 """C12: polygon-mode Boolean operations have exact region semantics."""
 import math, random as _random
-import vlib, gen, ref
+import vlib, gen, ref, kernels
 from props import clipglue as cg
 from props.clipglue import P
 
@@ -100,6 +100,10 @@ def correspond(ctx):
         # the extern's hypothesis does not hold on a recorded run: report as a disagreement (the theorems' premise fails)
         out['agree'] = min(out['agree'], out['n'] - 1)
         out['first_disagreement'] = {'clipper_hypothesis': spot_bad[:3], 'case': meta[spot_bad[0]['case']]}
+    # clip / union / intersection / difference as REGENERATED from utils/booleanoperationsmixin.py (round 6: pyclipper is an abstract parameter of the generated text --
+    # replayed from the recorded real calls --, everything else is computed: intersections, splitAtPoints, flatten(2), LUT, reconstruction), and Segment.__eq__
+    kernels.merge_cross_check(out, 'C12', ['Path_clip', 'Path_union', 'Path_intersection', 'Path_difference', 'Line___eq___Line', 'Quad___eq___Quad', 'Cubic___eq___Cubic', 'Line___eq___Cubic',
+                                           'Cubic___eq___Quad'], ctx.n(8, 100), rng, label='regenerated-kernels-round6')
     return out
 
 
